@@ -13,6 +13,7 @@ def jobs(tier):
     if tier != 'quick':
         for fl in (12, 13, 14, 15, 7, 11):
           out.append(dict(name='sets_a4_f%d' % fl, src='h_action.cpp', defs={'ALPHA': 4, 'NA': 3, 'NB': 3, 'FLAGS': fl}, entry='h_sets', tus=TUS, fp='real', loopmax=4000, maxsteps=400000000, bounds='3+3 wells over {A,B,C,D}'))
+    out.append(dict(name='sets_chain3', src='h_action.cpp', defs={'ALPHA': 3}, entry='h_sets3', tus=TUS, fp='real', loopmax=4000, maxsteps=400000000, bounds='three operands of 2 wells over {A,B,C}, middle operand with or without a match set'))
     for op in (4, 5, 6, 7, 8, 9):
         out.append(dict(name='cmp_op%d' % op, src='h_action.cpp', defs={'CMPOP': op}, entry='h_cmp', tus=TUS, fp='real', loopmax=4000, maxsteps=4000000, bounds='comparator token %d' % op))
     out.append(dict(name='ready_step', src='h_action.cpp', defs={}, entry='h_ready', tus=TUS2, fp='ieee', loopmax=4000, maxsteps=4000000, bounds='arbitrary prior state, one step'))
